@@ -184,7 +184,10 @@ def main():
             ctext, info = units.assemble_unit(mod)
             for sc in getattr(mod, 'SITE_CHECKS', []):
                 if prop in sc['props'] or prop == 'C05':
-                    site_facts.append(core.site_check(un, sc))
+                    try:
+                        site_facts.append(core.site_check(un, sc))
+                    except Broken as e:
+                        broken.append(str(e))
         except Broken as e:
             broken.append(str(e))
             continue
